@@ -221,8 +221,11 @@ class mapper(object):
             if isinstance(p, bytes):
                 p = cst(Bits(p[::endian], bitorder=1).int(), plen * 8)
             elif isinstance(p, exp):
-                if p._is_def == 0:
-                    # p is "bottom":
+                if p._is_top:
+                    # p is "top" (written with an unknown value):
+                    pass
+                elif p._is_def == 0:
+                    # p is "bottom" (never written):
                     p = mem(a, p.size, disp=cur, endian=endian)
                 elif p.etype==et_ext and p._subrefs.get("mmio_r",None):
                     p = p.stub(self,mode="r")
